@@ -7,7 +7,7 @@ RUNTIME_TB = ["R-SUM's specification table in lexlint/rules_runtime.py (the cont
 GEN_ALL = {"P1", "P2", "P3", "P4", "P5", "P6", "P7", "P8", "P9", "R-SAVED", "R-BSEARCH", "R-NAMES",
            "R-WHO", "R-PANIC", "R-CTOR", "R-SUGAR"}
 FLOORS = {"ops": 700, "munch": 240, "rulesets": 70, "rctx": 190, "eoi": 40, "classes": 330, "builtins": 110,
-          "prec": 100, "actions": 4, "modules": 10, "illformed": 50, "mix": 150}
+          "prec": 265, "actions": 7, "modules": 10, "illformed": 50, "mix": 150}
 
 
 def c01(ctx, env):
@@ -49,8 +49,8 @@ def c06(ctx, env):
 
 def c07(ctx, env):
     env.runtime(ctx, {"R-SUM"})
-    env.replay_gen(ctx, {"P5", "P6", "R-SAVED", "P9"})
-    env.witnesses(ctx, ["munch", "actions"], {"TV", "COMPILE", "P5", "P6", "R-SAVED", "P9"}, FLOORS)
+    env.replay_gen(ctx, {"P5", "P6", "R-SAVED", "P9", "TV", "TV-CTX"})
+    env.witnesses(ctx, ["munch", "actions", "rctx"], {"TV", "TV-CTX", "COMPILE", "P5", "P6", "R-SAVED", "P9"}, FLOORS)
 
 
 def c08(ctx, env):
@@ -330,7 +330,10 @@ PROPS = {
                        "exist; P6: every failure path returns InvalidToken located at "
                        "current_match_start read before the reset; P5: Custom(e) carries the "
                        "action's error unchanged, located at the match start, without a token; "
-                       "R-SUM: backtrack's nothing-saved path reports start@entry.",
+                       "R-SUM: backtrack's nothing-saved path reports start@entry. Witness "
+                       "families munch, actions, rctx (contexts decide whether 'nothing matches'): "
+                       "the extracted LTS fails exactly where the reference automaton is dead with "
+                       "nothing saved.",
         "trusted_base": RUNTIME_TB,
     },
     "C08": {
